@@ -19,7 +19,8 @@ META = {
     "require": {"quick": ["class:rowscan_shape", "class:mapping=many_to_one", "class:common=absent",
                           "class:alphabet=neg", "class:alphabet=b63", "class:counts=given", "class:back=mapping",
                           "class:n=0", "class:ndim=2", "class:layout=F", "class:layout=strided", "class:layout=list",
-                          "class:options_reused", "class:alphabet=sbound", "class:n>2^20", "class:columns>255"],
+                          "class:options_reused", "class:alphabet=sbound", "class:n>2^20", "class:columns>255",
+                          "class:counts_order=most_common", "class:counts_order=first_seen", "class:alphabet=many_inputs_few_categories"],
                 "thorough": ["class:rowscan_shape", "class:mapping=many_to_one", "class:common=absent",
                              "class:alphabet=neg", "class:alphabet=b63", "class:counts=given", "class:back=mapping",
                              "class:n=0", "class:ndim=2", "class:n>=20000"]},
@@ -76,6 +77,16 @@ def make_case(rng, kind, force=None):
         while len(vals) < 5:
             vals = vals + [max(vals) + 1 + len(vals)]
         dist = gen.pick(rng, ["verysparse", "sparse", "skew"])
+    elif kind == "coarsen":
+        # a variable with MANY distinct values (30..400, spread over a wide or a narrow range) that a many-to-one
+        # mapping coarsens into a few categories, most inputs going to one of them
+        n = int(gen.pick(rng, [120, 500, 1000, 3000]))
+        k = int(gen.pick(rng, [30, 60, 150, 400]))
+        span = int(gen.pick(rng, [k + 5, 10 * k, 10 ** 6, 2 ** 31 - 1]))
+        lo_ = int(gen.pick(rng, [0, 0, -span // 2]))
+        vals = sorted(set(int(v) + lo_ for v in rng.choice(span, size=k, replace=False).tolist())) if span < 2 ** 30 else \
+            sorted(set(int(v) + lo_ for v in rng.integers(0, span, size=k).tolist()))
+        acls, dist = "many_inputs_few_categories", "coarsen"
     elif kind == "wide":
         # many distinct values (> 256, > 65536) or many columns (> 256)
         if rng.random() < 0.5:
@@ -108,7 +119,22 @@ def make_case(rng, kind, force=None):
         shape = (n, cols)
     else:
         shape = (n,)
-    flat = gen.draw_values(rng, int(numpy.prod(shape)), vals, dist)
+    coarse = None
+    if dist == "coarsen":
+        # 4..8 "special" inputs keep categories of their own, every other input goes to category 0
+        m = int(rng.integers(4, 9))
+        special = [vals[int(i)] for i in rng.choice(len(vals), size=min(m, len(vals) - 1), replace=False)]
+        coarse = {v: 0 for v in vals}
+        for j, v in enumerate(special):
+            coarse[v] = j + 1
+        rest = [v for v in vals if v not in set(special)]
+        total = int(numpy.prod(shape))
+        share = float(gen.pick(rng, [0.01, 0.03, 0.3]))
+        pick_special = rng.random(total) < share
+        flat = numpy.where(pick_special, numpy.array(special, dtype=numpy.int64)[rng.integers(0, len(special), size=total)],
+                           numpy.array(rest, dtype=numpy.int64)[rng.integers(0, len(rest), size=total)])
+    else:
+        flat = gen.draw_values(rng, int(numpy.prod(shape)), vals, dist)
     if kind == "huge" and len(flat):
         # uncommon values beyond row 2^20, up to the very last row
         u, c = numpy.unique(flat[:100000], return_counts=True)
@@ -143,6 +169,8 @@ def make_case(rng, kind, force=None):
 
     # mapping class
     mcls = force.get("mapping", gen.pick(rng, MAPPING_CLASSES))
+    if coarse is not None:
+        mcls = "coarsen"
     domain = list(dict.fromkeys(present + ([common] if common is not None else [])))
     mapping = None
     if mcls != "none" and domain:
@@ -174,6 +202,9 @@ def make_case(rng, kind, force=None):
                     mapping[int(gen.pick(rng, others))] = mapping[top]
         elif mcls == "all_to_one":
             mapping = {v: 7 for v in domain}
+        elif mcls == "coarsen":
+            off = int(gen.pick(rng, [0, 0, 5, -3]))
+            mapping = {v: coarse.get(v, 0) + off for v in domain}
         mapping = {int(k): int(v) for k, v in mapping.items() if -2 ** 63 <= int(v) < 2 ** 63} \
             if all(-2 ** 63 <= int(v) < 2 ** 63 for v in mapping.values()) else None
         if mapping is None:
@@ -199,7 +230,16 @@ def cases(ctx):
         if kind == "huge":
             # the first cases of every huge shard are the fixed corners (both strategies, both ranks); the rest is drawn
             force = HUGE_CORNERS[i] if i < len(HUGE_CORNERS) else None
+        if kind in ("mix", "rowscan") and i % 50 == 11:
+            yield make_case(ctx.rng, "coarsen")
+            continue
         yield make_case(ctx.rng, kind, force)
+
+
+def case_order(case):
+    """A number derived from the case content alone (replayable): which key order the counts dict is given in."""
+    a = numpy.asarray(case["a"])
+    return int(a.size + (int(a.ravel()[0]) if a.size and a.dtype != object else 0) + len(case.get("back", "")))
 
 
 def vmap(mapping, arr):
@@ -275,7 +315,20 @@ def judge(ctx, case):
     if case["counts"]:
         if a.size:
             u, c = numpy.unique(a, return_counts=True)
-            kw["counts"] = dict(zip([int(x) for x in u.tolist()], [int(x) for x in c.tolist()]))
+            items = list(zip([int(x) for x in u.tolist()], [int(x) for x in c.tolist()]))
+            # the caller's dict may be in any key order (collections.Counter: first seen / most common first)
+            order = ["ascending", "most_common", "first_seen", "descending"][case_order(case) % 4]
+            if order == "most_common":
+                items.sort(key=lambda kv: -kv[1])
+            elif order == "first_seen":
+                first = {}
+                for v in a.ravel().tolist():
+                    first.setdefault(int(v), len(first))
+                items.sort(key=lambda kv: first[kv[0]])
+            elif order == "descending":
+                items.reverse()
+            ctx.count("class:counts_order=" + order)
+            kw["counts"] = dict(items)
         else:
             kw["counts"] = {}
     if common is not None:
